@@ -103,7 +103,8 @@ pub enum Obs {
 	Event { node: usize, ev: Event },
 	Sig(SigEv),
 	Persist { node: usize, rec: PersistRec },
-	Broadcast { node: usize, b: Broadcast },
+	/// `admit` = the chain simulator's verdict per transaction of the package at broadcast time.
+	Broadcast { node: usize, b: Broadcast, admit: Vec<Result<u64, crate::chain::Reject>> },
 	/// Result of a user API call made by the harness.
 	Api { node: usize, what: String, ok: bool, detail: String },
 	Disconnected { a: usize, b: usize },
@@ -158,6 +159,7 @@ pub struct World {
 	/// when true, commitment_signed etc. are logged compactly to `trace`
 	pub trace: Vec<String>,
 	pub funding_txs: Vec<Transaction>,
+	pub swept_txs: Vec<(usize, Transaction)>,
 	/// per node: last update id handed to Persist per channel (live), and as of the last manager write
 	pub live_ids: Vec<BTreeMap<ChannelId, u64>>,
 	pub mgr_known_ids: Vec<BTreeMap<ChannelId, u64>>,
@@ -191,6 +193,7 @@ impl World {
 			step_count: 0,
 			trace: Vec::new(),
 			funding_txs: Vec::new(),
+			swept_txs: Vec::new(),
 			live_ids: vec![BTreeMap::new(); n],
 			mgr_known_ids: vec![BTreeMap::new(); n],
 		}
@@ -258,13 +261,13 @@ impl World {
 				recs.push((rec.seq, Obs::Persist { node: i, rec }));
 			}
 			for b in self.nodes[i].bc.take() {
-				recs.push((b.seq, Obs::Broadcast { node: i, b }));
+				recs.push((b.seq, Obs::Broadcast { node: i, b, admit: Vec::new() }));
 			}
 		}
 		recs.sort_by_key(|r| r.0);
-		for (_, o) in recs {
-			if let Obs::Broadcast { b, .. } = &o {
-				self.chain.admit_package(&b.txs);
+		for (_, mut o) in recs {
+			if let Obs::Broadcast { b, admit, .. } = &mut o {
+				*admit = self.chain.admit_package(&b.txs);
 			}
 			self.obs.push(o);
 		}
@@ -442,6 +445,9 @@ impl World {
 					let r = self.nodes[n].cm.accept_inbound_channel(&temporary_channel_id, &counterparty_node_id, 7, None);
 					self.obs.push(Obs::Api { node: n, what: "accept_inbound_channel".into(), ok: r.is_ok(), detail: format!("{:?}", r) });
 				},
+				Event::BumpTransaction(bev) => {
+					self.nodes[n].bumper.handle_event(&bev);
+				},
 				Event::PaymentClaimable { payment_hash, .. } => {
 					let pol = self.payments.iter().find(|p| p.hash == payment_hash).map(|p| (p.policy.clone(), p.preimage));
 					match pol {
@@ -498,9 +504,115 @@ impl World {
 		self.pump();
 	}
 
+	/// Mines the currently minable mempool subset into one block and updates the wallets.
+	pub fn mine_mempool_block(&mut self) {
+		let h = self.chain.mine_mempool();
+		let b = self.chain.blocks[h as usize].clone();
+		self.update_wallets(&b);
+	}
+
 	pub fn sync_all(&mut self) {
 		for i in 0..self.nodes.len() {
 			self.sync_node(i);
+		}
+	}
+
+	/// Gives node `n`'s on-chain wallet a confirmed P2WPKH output of `value_sat` (mined at once).
+	pub fn give_wallet_utxo(&mut self, n: usize, value_sat: u64) {
+		use lightning::util::wallet_utils::WalletSourceSync;
+		let script = self.nodes[n].wallet.get_change_script().unwrap();
+		let tx = Transaction {
+			version: Version(2),
+			lock_time: LockTime::from_consensus(self.chain.height() + 1 + 1000 * n as u32),
+			input: Vec::new(),
+			output: vec![TxOut { value: Amount::from_sat(value_sat), script_pubkey: script }],
+		};
+		self.chain.mine(vec![tx.clone()], true).unwrap();
+		self.nodes[n].wallet.add_utxo(tx, 0);
+	}
+
+	/// Script to which node `n` sweeps its spendable outputs (distinct per node, harness-chosen).
+	pub fn sweep_script(&self, n: usize) -> bitcoin::ScriptBuf {
+		let mut k = [0x66u8; 32];
+		k[0] = self.nodes[n].tag;
+		let sk = bitcoin::secp256k1::SecretKey::from_slice(&k).unwrap();
+		let pk = bitcoin::PublicKey::new(sk.public_key(&bitcoin::secp256k1::Secp256k1::new()));
+		bitcoin::ScriptBuf::new_p2wpkh(&pk.wpubkey_hash().unwrap())
+	}
+
+	/// Spendable output descriptors node `n` has been given so far and not yet swept.
+	pub fn unswept_descriptors(&self, n: usize) -> Vec<lightning::sign::SpendableOutputDescriptor> {
+		let mut v = Vec::new();
+		for o in self.obs.iter() {
+			if let Obs::Event { node, ev: Event::SpendableOutputs { outputs, .. } } = o {
+				if *node == n {
+					for d in outputs.iter() {
+						let op = match d {
+							lightning::sign::SpendableOutputDescriptor::StaticOutput { outpoint, .. } => outpoint.into_bitcoin_outpoint(),
+							lightning::sign::SpendableOutputDescriptor::DelayedPaymentOutput(x) => x.outpoint.into_bitcoin_outpoint(),
+							lightning::sign::SpendableOutputDescriptor::StaticPaymentOutput(x) => x.outpoint.into_bitcoin_outpoint(),
+						};
+						if self.chain.utxos.contains_key(&op) && !self.chain.mempool.iter().any(|m| m.input.iter().any(|i| i.previous_output == op)) {
+							if !v.iter().any(|e| e == d) {
+								v.push(d.clone());
+							}
+						}
+					}
+				}
+			}
+		}
+		v
+	}
+
+	/// Builds the sweep of all unswept descriptors of node `n` with the node's own keys and offers it
+	/// to the chain. Ok(None) = nothing to sweep; Ok(Some(verdict)) = the simulator's admission verdict.
+	pub fn try_sweep(&mut self, n: usize) -> Result<Option<Result<u64, crate::chain::Reject>>, String> {
+		use lightning::sign::OutputSpender;
+		let descs = self.unswept_descriptors(n);
+		if descs.is_empty() {
+			return Ok(None);
+		}
+		let refs: Vec<&lightning::sign::SpendableOutputDescriptor> = descs.iter().collect();
+		let secp = bitcoin::secp256k1::Secp256k1::new();
+		let tx = self.nodes[n]
+			.keys
+			.backing
+			.spend_spendable_outputs(&refs, Vec::new(), self.sweep_script(n), 253, None, &secp)
+			.map_err(|_| format!("node {}'s keys cannot build a spend of {} spendable output descriptor(s)", n, descs.len()))?;
+		let r = self.chain.admit_package(&[tx.clone()]).pop().unwrap();
+		self.obs.push(Obs::Api { node: n, what: format!("sweep {} outputs", descs.len()), ok: r.is_ok(), detail: format!("{:?}", r) });
+		self.swept_txs.push((n, tx));
+		Ok(Some(r))
+	}
+
+	/// Two confirmed wallet UTXOs per node (anchor channels need external fee inputs), then sync.
+	pub fn fund_wallets(&mut self) {
+		for n in 0..self.nodes.len() {
+			self.give_wallet_utxo(n, 200_000);
+			self.give_wallet_utxo(n, 150_000);
+		}
+		self.sync_all();
+		assert!(self.run_to_quiescence(200));
+	}
+
+	/// After a block: spent wallet UTXOs disappear, confirmed change outputs become spendable.
+	fn update_wallets(&mut self, block: &bitcoin::Block) {
+		use lightning::util::wallet_utils::WalletSourceSync;
+		for n in 0..self.nodes.len() {
+			let script = self.nodes[n].wallet.get_change_script().unwrap();
+			for tx in block.txdata.iter() {
+				if tx.input.is_empty() {
+					continue;
+				}
+				for inp in tx.input.iter() {
+					self.nodes[n].wallet.remove_utxo(inp.previous_output);
+				}
+				for (v, o) in tx.output.iter().enumerate() {
+					if o.script_pubkey == script {
+						self.nodes[n].wallet.add_utxo(tx.clone(), v as u32);
+					}
+				}
+			}
 		}
 	}
 
@@ -803,7 +915,13 @@ pub fn obs_summary(o: &Obs) -> String {
 			rec.steps.iter().map(|s| (s.name, s.number.map(|n| crate::model::INITIAL_COMMITMENT_NUMBER - n))).collect::<Vec<_>>(),
 			rec.holder_commits.iter().map(|h| crate::model::INITIAL_COMMITMENT_NUMBER - h.number).collect::<Vec<_>>()
 		),
-		Obs::Broadcast { node, b } => format!("B {} {:?} {:?}", node, b.kinds, b.txs.iter().map(|t| t.compute_txid().to_string()[..8].to_string()).collect::<Vec<_>>()),
+		Obs::Broadcast { node, b, admit } => format!(
+			"B {} {:?} {:?} {:?}",
+			node,
+			b.kinds,
+			b.txs.iter().map(|t| t.compute_txid().to_string()[..8].to_string()).collect::<Vec<_>>(),
+			admit.iter().map(|a| match a { Ok(f) => format!("ok fee {}", f), Err(e) => format!("{:?}", e) }).collect::<Vec<_>>()
+		),
 		Obs::Api { node, what, ok, detail } => format!("API {} {} ok={} {}", node, what, ok, if *ok { "" } else { detail }),
 		o => format!("{:?}", o),
 	}
